@@ -47,7 +47,8 @@ META = {
         "value was stored before validation or a validator may store before rejecting, re-stores on every path a value computed from the incoming configuration "
         "(or the copy), not some other default. "
         "R6: __post_init__ calls validate_fields unconditionally; validate_fields applies validate_field to the current value of every field on every iteration "
-        "(a value-dependent skip is a violation); copy re-validates through dc.replace/the constructor; both front ends build the global config through the "
+        "(a value-dependent skip is a violation); validate_field applies the field's validator - single or every element of a list, in whatever control shape - on every "
+        "path except those taken only by fields without a validator; copy re-validates through dc.replace/the constructor; both front ends build the global config through the "
         "constructor inside a handler covering TypeError and ValueError with a default fallback - the handler is looked for around the constructor inside the builder or "
         "around every call of the builder anywhere in the package, so moving that call into a helper method keeps the rule deciding; everything a custom validator can raise on a configured value "
         "is covered by both handlers; the Sphinx builder-inited handler binds env.myst_config on every normal path; registering and reading loops use the same "
@@ -61,7 +62,9 @@ META = {
         "an abstract test (Sequence, Iterable, ...) or none lets a plain string pass as the container of its characters (R1 applies the same to combinator validators "
         "in field metadata). in_(range(...)) options are evaluated over module constants. "
         "R9: every docutils setting converter named in _attr_to_optparse_option that splits a comma-delimited string itself strips the items and drops empty ones, "
-        "or delegates to docutils' validate_comma_separated_list, whose source is re-read as the oracle (strip + drop empties). "
+        "or delegates to docutils' validate_comma_separated_list, whose source is re-read as the oracle (strip + drop empties); and on their way into the result "
+        "the items are not transformed by any str method other than stripping (a lower()/replace() in one entry point makes the docutils spelling differ from the same "
+        "value given as YAML dict, conf.py value or front matter - normalisation belongs in the shared validator). "
         "The per-field update is located by role (the function that calls validate_field, reached from merge_file_level directly or through one or two "
         "module-level helpers with parameters substituted), so splitting merge_file_level into helpers keeps every rule deciding."
     ),
@@ -1891,6 +1894,61 @@ def _comma_split_sites(f: FunctionInfo) -> list[ast.Call]:
     return [n for n in f.local_nodes() if isinstance(n, ast.Call) and isinstance(n.func, ast.Attribute) and n.func.attr == "split" and len(n.args) >= 1 and isinstance(n.args[0], ast.Constant) and n.args[0].value == ","]
 
 
+WHITESPACE_ONLY = {"strip", "lstrip", "rstrip"}
+
+
+def _item_transforms(f: FunctionInfo, site: ast.Call) -> list[tuple[ast.AST, str]]:
+    """(node, method) for every str method other than stripping that is applied to the items produced by ``site``
+    (a comma split or a call of docutils' splitter) on their way into the result; tests in filters do not count."""
+    holders: set[str] = set()
+    for n in f.local_nodes():
+        if isinstance(n, ast.Assign) and n.value is site:
+            holders |= {t.id for t in n.targets if isinstance(t, ast.Name)}
+
+    def is_source(e: ast.AST) -> bool:
+        return e is site or (isinstance(e, ast.Name) and e.id in holders)
+
+    def calls_on(e: ast.AST, var: set[str]) -> list[tuple[ast.AST, str]]:
+        # method calls whose receiver is (derived from) an item: k.lower(), k.strip().lower(), k.replace(...)
+        return [
+            (c, c.func.attr)
+            for c in ast.walk(e)
+            if isinstance(c, ast.Call) and isinstance(c.func, ast.Attribute) and c.func.attr not in WHITESPACE_ONLY and _free_names(c.func.value) & var
+        ]
+
+    found: list[tuple[ast.AST, str]] = []
+    for n in f.local_nodes():
+        if isinstance(n, (ast.ListComp, ast.SetComp, ast.GeneratorExp, ast.DictComp)):
+            for g in n.generators:
+                if is_source(g.iter):
+                    var = {x.id for x in ast.walk(g.target) if isinstance(x, ast.Name)}
+                    for part in ([n.key, n.value] if isinstance(n, ast.DictComp) else [n.elt]):
+                        found += calls_on(part, var)
+        elif isinstance(n, ast.For) and is_source(n.iter):
+            var = {x.id for x in ast.walk(n.target) if isinstance(x, ast.Name)}
+            for st in ast.walk(n):
+                if isinstance(st, ast.Assign) and _free_names(st.value) & var:
+                    var |= {t.id for t in st.targets if isinstance(t, ast.Name)}
+            for st in n.body:
+                for x in ast.walk(st):
+                    if isinstance(x, ast.If):
+                        continue
+                    if isinstance(x, (ast.Assign, ast.Expr, ast.AugAssign, ast.Return)):
+                        tests = {id(y) for i_ in ast.walk(x) if isinstance(i_, (ast.If, ast.IfExp)) for y in ast.walk(i_.test)}
+                        found += [(c, m) for c, m in calls_on(x, var) if id(c) not in tests]
+        elif isinstance(n, ast.Call) and dotted(n.func) == "map" and len(n.args) == 2 and is_source(n.args[1]):
+            d = dotted(n.args[0]) or ""
+            if d.startswith("str.") and d[4:] not in WHITESPACE_ONLY:
+                found.append((n, d[4:]))
+    seen = set()
+    out = []
+    for c, m in found:
+        if id(c) not in seen:
+            seen.add(id(c))
+            out.append((c, m))
+    return out
+
+
 def _split_site_verdict(f: FunctionInfo, site: ast.Call) -> tuple[bool, bool]:
     """(items stripped?, empty items dropped?) for one ``X.split(",")`` - Unsupported when the items are consumed in an unknown way."""
     # names that hold the split result
@@ -2010,6 +2068,20 @@ def r9_comma_lists_split_like_docutils(corpus: Corpus, rep: Report, tier: str):
         delegates = [c for c in f.local_nodes() if isinstance(c, ast.Call) and du.resolve(dotted(c.func) or "") == "docutils.frontend.validate_comma_separated_list"]
         for c in delegates:
             rep.ok("C13.R9", f"{fq}|delegates the splitting to docutils", du.site(c), "validate_comma_separated_list strips items and drops empty ones (sibling verified)")
+        for j, src in enumerate(sorted(sites + delegates, key=lambda x: (x.lineno, x.col_offset))):
+            k = f"{fq}|items pass through unchanged apart from stripping" + (f" #{j + 1}" if len(sites + delegates) > 1 else "")
+            tr = _item_transforms(f, src)
+            if tr:
+                node_, meth = tr[0]
+                rep.violation(
+                    "C13.R9",
+                    k,
+                    du.site(node_),
+                    f"`{short(node_, 50)}` in {f.qualname} applies .{meth}() to the items of the comma-delimited spelling: the docutils option string is normalised differently from the same "
+                    "value given as a YAML dict, in conf.py or in front matter (which reach the shared validator untouched) - a normalisation belongs in the field's validator, not in one entry point",
+                )
+            else:
+                rep.ok("C13.R9", k, du.site(src), "only whitespace stripping")
         for i, site in enumerate(sorted(sites, key=lambda x: (x.lineno, x.col_offset))):
             k = f"{fq}|items of the comma split are stripped and empty items dropped" + (f" #{i + 1}" if len(sites) > 1 else "")
             stripped, filtered = _split_site_verdict(f, site)
@@ -2534,18 +2606,51 @@ def r6_entry_points_funnel(corpus: Corpus, rep: Report, tier: str):
                     rep.error("C13.R6", "validate_fields skips validate_field on some path under a condition that is not understood")
     vf = dcv.func("validate_field")
     cfgv = get_cfg(vf)
-    applied = []
-    for c in vf.local_nodes():
-        if isinstance(c, ast.Call) and len(c.args) >= 3 and [unparse(a) for a in c.args[:3]] == vf.params[:3]:
-            applied.append(c)
-    rets = [r for r in vf.local_nodes() if isinstance(r, ast.Return)]
-    ret_ok = all(any(p and unparse(t) == f"'validator' not in {vf.params[1]}.metadata" for t, p in cfgv.guards(r)) for r in rets)
-    direct = [c for c in applied if unparse(c.func) == f"{vf.params[1]}.metadata['validator']"]
-    looped = [c for c in applied if isinstance(c.func, ast.Name) and any(isinstance(a, ast.For) and unparse(a.iter) == f"{vf.params[1]}.metadata['validator']" and unparse(a.target) == c.func.id for a in ancestors(c))]
-    if direct and ret_ok and len(applied) == len(direct) + len(looped):
-        rep.ok("C13.R6", f"{vf.fq}|applies metadata['validator'] to (inst, field, value)", vf.site())
+    fpar = vf.params[1]
+    src_texts = (f"{fpar}.metadata['validator']", f"{fpar}.metadata.get('validator')")
+
+    def from_metadata(e: ast.AST, der: set[str]) -> bool:
+        return any(unparse(x) in src_texts for x in ast.walk(e)) or bool(_free_names(e) & der)
+
+    der: set[str] = set()
+    for _ in range(3):
+        for n in vf.local_nodes():
+            if isinstance(n, ast.Assign) and from_metadata(n.value, der):
+                der |= {x.id for t in n.targets for x in ast.walk(t) if isinstance(x, ast.Name)}
+            elif isinstance(n, (ast.AnnAssign, ast.NamedExpr)) and n.value is not None and isinstance(n.target, ast.Name) and from_metadata(n.value, der):
+                der.add(n.target.id)
+            elif isinstance(n, ast.For) and from_metadata(n.iter, der):
+                der |= {x.id for x in ast.walk(n.target) if isinstance(x, ast.Name)}
+    applied = [
+        c
+        for c in vf.local_nodes()
+        if isinstance(c, ast.Call) and len(c.args) >= 3 and [unparse(a_) for a_ in c.args[:3]] == vf.params[:3] and (unparse(c.func) in src_texts or (isinstance(c.func, ast.Name) and c.func.id in der))
+    ]
+    k = f"{vf.fq}|applies metadata['validator'] to (inst, field, value)"
+    if not applied:
+        rep.error("C13.R6", "validate_field does not apply field.metadata['validator'] (single or list) to (inst, field, value) in a recognisable way")
     else:
-        rep.error("C13.R6", "validate_field does not apply field.metadata['validator'] (single or list) to (inst, field, value) in the known way")
+        points = set()
+        for c in applied:
+            st = cfgv.stmt_of(c)
+            loops_ = [a_ for a_ in ancestors(c) if isinstance(a_, ast.For) and from_metadata(a_.iter, der)]
+            points.add(loops_[-1] if loops_ else st)  # a loop over the validators counts as the application point
+        def no_validator(t: ast.expr, pol: bool) -> bool:
+            u = unparse(t)
+            return (u == f"'validator' not in {fpar}.metadata" and pol) or (u == f"'validator' in {fpar}.metadata" and not pol) or (u == f"{fpar}.metadata.get('validator')" and not pol)
+
+        def harmless(n) -> bool:
+            # a branch edge that is only taken by fields without a validator
+            return isinstance(n, tuple) and n[0] in ("T", "F") and isinstance(n[1], ast.If) and any(no_validator(t, p) for t, p in flow_facts(n[1].test, n[0] == "T"))
+
+        if cfgv.paths_avoiding("ENTRY", "EXIT", lambda n: n in points or harmless(n)):
+            cond = [t for t in (n for n in vf.local_nodes() if isinstance(n, ast.If)) if vf.params[2] in _free_names(t.test)]
+            if cond:
+                rep.violation("C13.R6", k, dcv.site(cond[0]), f"validate_field can return without applying the field's validator, depending on the value (`{short(cond[0].test, 60)}`)")
+            else:
+                rep.error("C13.R6", "validate_field can return without applying the validator on a path that is not understood")
+        else:
+            rep.ok("C13.R6", k, vf.site(), "single validator or every validator of a list")
     # (c) copy == dc.replace(self, **kwargs)
     cp = ci.methods.get("copy")
     if cp is None:
@@ -3084,4 +3189,31 @@ def mutants(corpus: Corpus):
         inner = v.args[0] if isinstance(v, ast.Call) and dotted(v.func) == "optional" and v.args else v
         if isinstance(inner, ast.Call) and dotted(inner.func) == "deep_iterable" and len(inner.args) == 2:
             out.append(Mutant("c13-ref-domains-container-unchecked", "C13.R1", main.rel, splice(main.src, inner, f"deep_iterable({_seg(main, inner.args[0])})"), expect="ref_domains"))
+    # ---- round 9: one entry point transforms the items of a comma-delimited setting (R9)
+    du = corpus.mod("parsers.docutils_")
+    f = du.functions.get("_validate_url_schemes")
+    if f is not None:
+        for site in _comma_split_sites(f):
+            comp = parent(site)
+            while comp is not None and not isinstance(comp, (ast.DictComp, ast.ListComp, ast.SetComp, ast.GeneratorExp, ast.stmt)):
+                comp = parent(comp)
+            if isinstance(comp, ast.DictComp) and not _item_transforms(f, site):
+                out.append(Mutant("c13-url-schemes-list-spelling-lower-cased", "C13.R9", du.rel, splice(du.src, comp.key, f"{_seg(du, comp.key)}.lower()"), expect="items pass through unchanged"))
+    f = du.functions.get("_validate_comma_separated_set")
+    if f is not None:
+        r = find_node(f, lambda n: isinstance(n, ast.Return) and isinstance(n.value, ast.Call) and dotted(n.value.func) == "set" and len(n.value.args) == 1)
+        if r is not None:
+            out.append(Mutant("c13-set-converter-casefolds-items", "C13.R9", du.rel, splice(du.src, r.value, "{v.casefold() for v in " + _seg(du, r.value.args[0]) + "}"), expect="items pass through unchanged"))
+    f = du.functions.get("_create_validate_tuple._validate")
+    if f is not None:
+        r = find_node(f, lambda n: isinstance(n, ast.Return) and isinstance(n.value, ast.Call) and dotted(n.value.func) == "tuple" and len(n.value.args) == 1)
+        if r is not None:
+            out.append(Mutant("c13-tuple-converter-replaces-in-items", "C13.R9", du.rel, splice(du.src, r.value, "tuple(v.replace('_', '-') for v in " + _seg(du, r.value.args[0]) + ")"), expect="items pass through unchanged"))
+    # ---- round 9: validate_field skips the validator depending on the value (R6)
+    dv = corpus.mod(DCV)
+    f = dv.func("validate_field")
+    first = next((st for st in f.node.body if not (isinstance(st, ast.Expr) and isinstance(st.value, ast.Constant))), None)
+    if first is not None:
+        ind = _indent(dv, first)
+        out.append(Mutant("c13-validate-field-skips-none-values", "C13.R6", dv.rel, splice(dv.src, first, f"if {f.params[2]} is None:\n{ind}    return\n{ind}{_seg(dv, first)}"), expect="validate_field"))
     return out
